@@ -148,6 +148,21 @@ def run(chk):
     chk.ob("R-IDX", c + "{detector input}", "the detector runs on the cleaned array", len(det) == 1 and
            "ret:clean_out_non_changing#0" in det[0].bound["values"].tags, derived="%d detector call(s)" % len(det), loc=det[0].loc if det else fi.loc())
     expect(chk, "R-IDX", c + ".result", r.ret, deg={R: 0}, parity={R: "even"}, sign="nonneg", dtype="int", loc=fi.loc())
+    # the cleaning routine: on every return path, cleaned == np.take(values, map) for the map it returns
+    qc = PK + "clean_out_non_changing"
+    rc = analyse(chk, qc, lambda I, st, fi: dict(values=rec_array("values")))
+    takes = [e for e in rc.events("lib-call", qc) if e.name == "numpy.take"]
+    for k, v in enumerate(rc.returns()):
+        a, b = item(v, 0), item(v, 1)
+        ok = a is not None and b is not None and any(
+            rc.I.alloc_tok(type("F", (), {"fi": rc.fi})(), e.node) in a.origin and e.args[0].origin == frozenset(["p:values"]) and e.args[1].origin == b.origin
+            for e in takes) and len(a.origin) == 1
+        chk.ob("R-IDX", "eqsig/fns/peaks_and_crossings.py:clean_out_non_changing{return %d}" % k,
+               "returned (cleaned, map) satisfy cleaned == np.take(values, map)", ok,
+               derived="cleaned origin %s, map origin %s" % (sorted(a.origin) if a is not None else None, sorted(b.origin) if b is not None else None),
+               loc=rc.fi.loc())
+    if not rc.returns():
+        chk.ob("R-IDX", "eqsig/fns/peaks_and_crossings.py:clean_out_non_changing", "returns (cleaned, map)", False, derived="no return", loc=rc.fi.loc())
     # detector: inserts 0 and len-1
     q = PK + "determine_indices_of_peaks_for_cleaned_array"
     r = analyse(chk, q, lambda I, st, fi: dict(values=rec_array("values")))
